@@ -46,7 +46,7 @@ LEVEL_TEXT = ('Exhaustive BFS over tag-edit sequences up to the bound on every '
               'bounded DAG, each transition executed on the real objects and '
               'compared with the twin model (frame condition included).')
 LEVEL_NOTE = ('Trusted: mc.canon, the raw-storage twin editor. Bounds: N<=2 '
-              'nodes, sequences <=2 (quick) / N<=3 reduced, <=3 (thorough).')
+              'nodes, sequences <=2; the thorough tier adds a reduced N=3 family.')
 
 TAGS = {'A': N.TagA, 'B': N.TagB, 'C': N.TagC}
 
@@ -111,7 +111,7 @@ def bounds(tier):
   if tier == 'quick':
     return dict(families=[[FULL, 2, 1]], seq=2)
   return dict(families=[[FULL, 2, 1], [['cfg', 'ctag', 'tv', 'list2'], 3, 1]],
-              seq=3)
+              seq=2)
 
 
 def units(tier, seed):
